@@ -325,7 +325,7 @@ Section DapProofs.
       + split.
         { destruct (hit bps0 (pc cp0)) eqn:Eh; simpl; auto. rewrite K1; auto. }
         (split; [exact HG'|]); kcase K1 K2 K3 K4 K6.
-        exfalso. apply (NSL cp0 Ef). rewrite K5 in *; auto. congruence.
+        exfalso. apply (proj1 (Z.eqb_neq _ _) (NSL cp0 Ef)). rewrite K5 in *; auto. congruence.
     - (* S_req *) 
       break_in H; inv_some; destruct r; simpl in *; rewrite ?stopped_false, ?Bool.andb_false_r; (split; [reflexivity|]); (split; [exact HG'|]); kcase K1 K2 K3 K4 K6.
     - break_in H; inv_some; simpl; rewrite ?stopped_false, ?Bool.andb_false_r; (split; [reflexivity|]); (split; [exact HG'|]); kcase K1 K2 K3 K4 K6.
